@@ -47,7 +47,8 @@ Definition inf_flag (p : nat) (o : option R) : nat -> bool :=
 Lemma samples_mono ops : forall s e, In e (m_samples s) -> In e (m_samples (mrun ops s)).
 Proof.
   induction ops as [|o ops IH]; intros s e H; cbn [mrun fold_left]; [exact H|].
-  apply (IH (mstep s o)). destruct o; cbn [mstep m_samples]; [exact H|apply in_or_app; left; exact H..].
+  apply (IH (mstep s o)). destruct o as [| | | | | | | | | |? ? ? []]; cbn [mstep m_samples];
+    [exact H|apply in_or_app; left; exact H..].
 Qed.
 
 Lemma mstat_recorded ops f : forall s,
@@ -86,6 +87,38 @@ Proof.
   rewrite He in H. destruct H.
 Qed.
 
+Lemma mem_fresh n k (d : pdict) : keys_below n d = true -> (n <= k)%nat -> mem Nat.eqb k d = false.
+Proof.
+  intros Hk Hle. unfold mem. destruct (lookup Nat.eqb k d) eqn:Hl; [|reflexivity]. exfalso.
+  assert (Hin : In k (keys d)).
+  { clear - Hl. induction d as [|[k' v] d IH]; cbn [lookup] in Hl; [discriminate|].
+    destruct (Nat.eqb_spec k k') as [->|]; [left; reflexivity|right; exact (IH Hl)]. }
+  pose proof (proj1 (keys_below_iff n d) Hk k Hin). lia.
+Qed.
+
+(** the (sub)gradient (x0 - x) / gamma recorded by an inexact proximal step 'PD_gapIII' mentions the fresh leaf x *)
+Lemma ip3_grad_nonempty n (x0 : pdict) gamma :
+  keys_below n x0 = true -> qpos gamma = true -> ip3_grad n x0 gamma <> [].
+Proof.
+  intros Hk Hpos He. pose proof (qpos_pos gamma Hpos) as Hg.
+  pose proof (mem_fresh n n x0 Hk (Nat.le_refl n)) as Hmem.
+  assert (Hin0 : exists c0, In (n, c0) (p_sub x0 [(n, 1%Q)]) /\ Q2R c0 = -1).
+  { eexists. split.
+    - unfold p_sub, p_add, prune. apply filter_In. split.
+      + unfold pmerge, merge. apply in_or_app. right. cbn [p_neg p_scal scale map filter]. rewrite Hmem. left. reflexivity.
+      + reflexivity.
+    - unfold Q2R. cbn. lra. }
+  destruct Hin0 as (c0 & Hin0 & Hc0).
+  assert (Hin : In (n, (c0 * (1 / gamma))%Q) (ip3_grad n x0 gamma)).
+  { unfold ip3_grad, prune. apply filter_In. split.
+    - unfold p_div, p_scal, scale. apply in_map_iff. exists (n, c0). split; [reflexivity|exact Hin0].
+    - unfold nonzero. apply negb_true_iff. destruct (Qeq_bool (c0 * (1 / gamma)) 0) eqn:Hc; [|reflexivity]. exfalso.
+      apply Qeq_bool_eq in Hc. apply Qeq_eqR in Hc. rewrite Q2R_mult, RMicromega.Q2R_0, Hc0 in Hc.
+      rewrite (SemLemmas.Q2R_one_div gamma (qpos_nz gamma Hg)) in Hc.
+      assert (0 < 1 / Q2R gamma) by (apply Rdiv_lt_0_compat; lra). lra. }
+  rewrite He in Hin. destruct Hin.
+Qed.
+
 (** the dual point recorded by a Bregman proximal step of non-zero step size mentions the fresh leaf gx *)
 Lemma breg_dual_fresh_nonempty n k (sx0 : pdict) gamma :
   keys_below n sx0 = true -> (n <= k)%nat -> Qeq_bool gamma 0 = false -> breg_dual sx0 [(k, 1%Q)] gamma <> [].
@@ -97,12 +130,7 @@ Proof.
     apply Qeq_bool_eq in Hc. assert (Hz : (gamma == 0)%Q).
     { setoid_replace gamma with (- c)%Q by (unfold c; ring). rewrite Hc. reflexivity. }
     apply Qeq_eq_bool in Hz. congruence. }
-  assert (Hmem : mem Nat.eqb k sx0 = false).
-  { unfold mem. destruct (lookup Nat.eqb k sx0) eqn:Hl; [|reflexivity]. exfalso.
-    assert (Hin : In k (keys sx0)).
-    { clear - Hl. induction sx0 as [|[k' v] d IH]; cbn [lookup] in Hl; [discriminate|].
-      destruct (Nat.eqb_spec k k') as [->|]; [left; reflexivity|right; exact (IH Hl)]. }
-    pose proof (proj1 (keys_below_iff n sx0) Hk k Hin). lia. }
+  pose proof (mem_fresh n k sx0 Hk Hle) as Hmem.
   assert (Hin : In (k, c) (breg_dual sx0 [(k, 1%Q)] gamma)).
   { unfold breg_dual, p_sub, p_add, prune. apply filter_In. split; [|exact Hc]. apply filter_In. split; [|exact Hc].
     unfold pmerge, merge. apply in_or_app. right. cbn [p_neg p_scal scale map filter]. fold c.
@@ -129,7 +157,7 @@ Section StatInv.
               keys_below (m_np (mstep s o)) x = true /\ veq (evalP (fst (wstep W vs s o)) x) (fst (stat W f))).
     { intros H. destruct (HI f x fx H) as [Hk Hv]. split; [exact (keys_below_mono _ _ x Hc Hk)|].
       rewrite (evalP_agree (fst vs) _ (m_np s) x Hk Hr). exact Hv. }
-    destruct o as [|g p|g|g p gamma|g dir|g p rel eps|g x0 dirs|g p|h gx0 sx0 gamma|h g sx0 gamma];
+    destruct o as [|g p|g|g p gamma|g dir|g p rel eps|g x0 dirs|g p|h gx0 sx0 gamma|h g sx0 gamma|g x0 gamma opt];
       cbn [mstep m_samples] in Hin.
     - apply Hold, Hin.
     - apply in_app_or in Hin as [Hin|[Heq|[]]]; [apply Hold, Hin|discriminate Heq].
@@ -150,6 +178,12 @@ Section StatInv.
       injection Heq as _ _ Hg _. exfalso.
       apply (breg_dual_fresh_nonempty (m_np s) (S (m_np s)) sx0 gamma Hk (Nat.le_succ_diag_r _)); [|exact Hg].
       apply negb_true_iff. exact Hnz.
+    - cbn [op_wf] in Hwf. apply andb_prop in Hwf as [Hwf Hpos]. apply andb_prop in Hwf as [Hk _].
+      destruct opt; cbn [mstep m_samples] in Hin.
+      + apply in_app_or in Hin as [Hin|[Heq|[Heq|[]]]]; [apply Hold, Hin|discriminate Heq|discriminate Heq].
+      + apply in_app_or in Hin as [Hin|[Heq|[]]]; [apply Hold, Hin|discriminate Heq].
+      + apply in_app_or in Hin as [Hin|[Heq|[Heq|[]]]]; [apply Hold, Hin|discriminate Heq|].
+        injection Heq as _ _ Hgr _. exfalso. exact (ip3_grad_nonempty (m_np s) x0 gamma Hk Hpos Hgr).
   Qed.
 
   (** (a linear-optimization step along the zero direction would record a sample with an empty gradient
@@ -170,7 +204,7 @@ Section StatInv.
   Proof.
     intros Hno Hnm Hnb. unfold steps_ok. induction ops as [|o ops IH]; cbn [forallb]; [reflexivity|].
     intros H. apply andb_prop in H as [Ho H]. rewrite (IH H), andb_true_r.
-    destruct o as [|g p|g|g p gamma|g dir|g p rel eps|g x0 dirs|g p|h gx0 sx0 gamma|h g sx0 gamma]; try reflexivity;
+    destruct o as [|g p|g|g p gamma|g dir|g p rel eps|g x0 dirs|g p|h gx0 sx0 gamma|h g sx0 gamma|g x0 gamma opt]; try reflexivity;
       cbn [step_ok] in Ho; rewrite ?Hno, ?Hnm, ?Hnb in Ho; discriminate Ho.
   Qed.
 
@@ -364,7 +398,8 @@ Section All.
           (fun _ => false) (fun _ x0 _ => x0) (no_ls _ _)
           (exact_epssub (fun _ x => (sel x, val F x))) (exact_epssub_spec (fun _ x => (sel x, val F x)) (fun _ t => pgen t) pfn_orc_genuine)
           (fun _ => false) (fun _ sd => (sd, 0)) (no_mirror _ _)
-          (fun _ _ => false) (fun _ _ _ sd => ((sd, sd), (0, 0))) (no_bprox _ _).
+          (fun _ _ => false) (fun _ _ _ sd => ((sd, sd), (0, 0))) (no_bprox _ _)
+          (exact_iprox (fun _ x => (sel x, val F x))) (exact_iprox_spec (fun _ x => (sel x, val F x)) (fun _ t => pgen t) pfn_orc_genuine pfn_gen_veq).
 
     Variable ops : list mop.
     Variable vs : (nat -> E) * (nat -> R).
@@ -448,7 +483,8 @@ Section All.
           (fun _ => false) (fun _ x0 _ => x0) (no_ls _ _)
           (exact_epssub (fun _ x => (sel x, sigma x))) (exact_epssub_spec (fun _ x => (sel x, sigma x)) (fun _ t => genuine_support C sigma t) sup_orc_genuine)
           (fun _ => false) (fun _ sd => (sd, 0)) (no_mirror _ _)
-          (fun _ _ => false) (fun _ _ _ sd => ((sd, sd), (0, 0))) (no_bprox _ _).
+          (fun _ _ => false) (fun _ _ _ sd => ((sd, sd), (0, 0))) (no_bprox _ _)
+          (exact_iprox (fun _ x => (sel x, sigma x))) (exact_iprox_spec (fun _ x => (sel x, sigma x)) (fun _ t => genuine_support C sigma t) sup_orc_genuine sup_gen_veq).
 
     Theorem run_satisfies_convex_support (M : option R) (qM : Q) ops vs :
       support_member M C sigma -> (forall m, M = Some m -> Q2R qM = m) ->
@@ -497,7 +533,8 @@ Section All.
           (fun _ => false) (fun _ x0 _ => x0) (no_ls _ _)
           (exact_epssub (fun _ x => (T x, 0))) (exact_epssub_spec (fun _ x => (T x, 0)) (fun _ t => genuine_op A t) graph_orc_genuine)
           (fun _ => false) (fun _ sd => (sd, 0)) (no_mirror _ _)
-          (fun _ _ => false) (fun _ _ _ sd => ((sd, sd), (0, 0))) (no_bprox _ _).
+          (fun _ _ => false) (fun _ _ _ sd => ((sd, sd), (0, 0))) (no_bprox _ _)
+          (exact_iprox (fun _ x => (T x, 0))) (exact_iprox_spec (fun _ x => (T x, 0)) (fun _ t => genuine_op A t) graph_orc_genuine graph_gen_veq).
 
     Variable ops : list mop.
     Variable vs : (nat -> E) * (nat -> R).
@@ -586,7 +623,8 @@ Section All.
           (fun _ => false) (fun _ x0 _ => x0) (no_ls _ _)
           (exact_epssub (fun _ x => (M x, 0))) (exact_epssub_spec (fun _ x => (M x, 0)) (fun _ t => genuine_lin M t) lin_orc_genuine)
           (fun _ => false) (fun _ sd => (sd, 0)) (no_mirror _ _)
-          (fun _ _ => false) (fun _ _ _ sd => ((sd, sd), (0, 0))) (no_bprox _ _).
+          (fun _ _ => false) (fun _ _ _ sd => ((sd, sd), (0, 0))) (no_bprox _ _)
+          (exact_iprox (fun _ x => (M x, 0))) (exact_iprox_spec (fun _ x => (M x, 0)) (fun _ t => genuine_lin M t) lin_orc_genuine lin_gen_veq).
 
     Variable ops : list mop.
     Variable vs : (nat -> E) * (nat -> R).
@@ -645,7 +683,8 @@ Section All.
           (fun _ => false) (fun _ x0 _ => x0) (no_ls _ _)
           (exact_epssub (fun f x => (pick f x, 0))) (exact_epssub_spec (fun f x => (pick f x, 0)) (fun f t => genuine_lin (pick f) t) (fun f => lin_orc_genuine (pick f) f))
           (fun _ => false) (fun _ sd => (sd, 0)) (no_mirror _ _)
-          (fun _ _ => false) (fun _ _ _ sd => ((sd, sd), (0, 0))) (no_bprox _ _).
+          (fun _ _ => false) (fun _ _ _ sd => ((sd, sd), (0, 0))) (no_bprox _ _)
+          (exact_iprox (fun f x => (pick f x, 0))) (exact_iprox_spec (fun f x => (pick f x, 0)) (fun f t => genuine_lin (pick f) t) (fun f => lin_orc_genuine (pick f) f) (fun f => lin_gen_veq (pick f) f)).
 
     Theorem run_satisfies_linear (L : R) (qL : Q) ops vs :
       bounded_pair L M Mt -> Q2R qL = L ->
